@@ -113,6 +113,13 @@ def tok_of(c, t):
     return "%02x%02x" % (0x9F if t >= 128 else 0xA0 + c, t)
 
 
+def target_of(f):
+    """what, beside client and resource, identifies the observation a scripted request is about: the query variant (field 4) and —
+    round R11c — method + payload (9th field: 0 / absent = GET, 1..4 = FETCH with that payload variant; RFC 8132 §2: the payload of a
+    FETCH is part of the cache key, RFC 7252 §5.6: so is the method).  ETag / NoCacheKey extras (8th field) are NOT part of it."""
+    return int(f[4]) + 10 * (int(f[8]) if len(f) > 8 else 0)
+
+
 def check(inp, impl, consts):
     """returns a list of (tag, message); empty = the trace satisfies the property"""
     max_non = consts.get("obsMaxNon", 5)
@@ -166,7 +173,7 @@ def check(inp, impl, consts):
         # ---- deregistration causes that take effect BEFORE this event's datagrams are written
         req_resp = None
         if op in ("reg", "can", "get"):
-            c, r, t, q = int(f[1]), int(f[2]), int(f[3]), int(f[4])
+            c, r, t, q = int(f[1]), int(f[2]), int(f[3]), target_of(f)
             tok = tok_of(c, t)
             used.setdefault(c, set()).add(tok)
             req_resp = next((o for o in outs if o["tag"] == "p"), None)
@@ -333,7 +340,7 @@ def check(inp, impl, consts):
                     viol.append(("observe-range", "event #%d (%s): response to client %d token %s carries Observe=%d, not a 24-bit value" % (
                         k, ev, c, o["tok"], o["obs"])))
                 if op == "reg" and o["code"] == 69 and o["obs"] is not None:
-                    c_, r, t, q = int(f[1]), int(f[2]), int(f[3]), int(f[4])
+                    c_, r, t, q = int(f[1]), int(f[2]), int(f[3]), target_of(f)
                     fresh = key not in reg or r not in reg[key]
                     if fresh:
                         # same cache key under another token is replaced, never duplicated
@@ -368,7 +375,7 @@ def check(inp, impl, consts):
                                          "version %d" % (k, ev, c, o["tok"], o["pver"], r, nver.get(r, 0) % VER_MOD)))
                         lastver[key] = (o["pver"], k)
                 elif op == "reg" and o["code"] >= 128:
-                    c_, r, q = int(f[1]), int(f[2]), int(f[4])
+                    c_, r, q = int(f[1]), int(f[2]), target_of(f)
                     was = key in reg and r in reg[key]
                     deregister(c, o["tok"], r, "error response to the registration")
                     for (c2, tok2), d in list(reg.items()):      # the same observation under its previous token
